@@ -2,7 +2,11 @@
 (* Scenario generation for the C06 conformance harness (spec -> impl).       *)
 (* One JSON line per behaviour:                                              *)
 (*   {rule, world:{i:{chg,cut,events:[{U,u,pu,b,a}..]}}, steps:[..]}         *)
-(*   steps: {a:"Init"|"Reinit", snap:{i:S}, books:{i:book}}                  *)
+(*   steps: {a:"Init"|"Reinit", snap:{i:S}, buf:[{i,k}..], books:{i:book},   *)
+(*           after:{book,sq,conn,notices}, emit:{i:[{t,i,k}..]}}             *)
+(*          (books = the REST snapshots; buf = frames buffered by the        *)
+(*           subscription validation; after / emit = what the consumer holds *)
+(*           and has received, in order, once the connection is established) *)
 (*          {a:"Deliver", i, k, out, book, sq, conn, notices}                *)
 (* where book / sq are the EXPECTED local book and sequencer of instrument i *)
 (* after the delivery (the specification is deterministic here: event lists  *)
@@ -18,21 +22,29 @@ VARIABLES phase, hist, done,
           pick       \* simulation: the random draws of the NEXT step, made one step ahead (a state
                      \* value is fully evaluated, so every use of a draw sees the same value)
 
-gvars == <<rule, chg, cut, snap, sq, book, conn, notices, nreinit, ndeliv, admitted, clean, last, phase, hist, done, pick>>
+gvars == <<rule, chg, cut, snap, sq, book, expected, emitted, conn, notices, nreinit, ndeliv, admitted, clean, last, phase, hist, done, pick>>
 
 ProjB(b) == [bids |-> OB!Levels(b.bids, "bids"), asks |-> OB!Levels(b.asks, "asks"), seq |-> b.seq]
 ProjS(s) == [processed |-> s.processed, lastId |-> s.lastId]
 
-InitRec(a) == [a |-> a, snap |-> snap', books |-> [i \in INSTR |-> ProjB(book'[i])]]
+AfterRec == [book |-> [i \in INSTR |-> ProjB(book'[i])], sq |-> [i \in INSTR |-> ProjS(sq'[i])],
+             conn |-> conn', notices |-> notices']
+InitRec(a, buf) == [a |-> a, snap |-> snap', buf |-> buf, books |-> [i \in INSTR |-> ProjB(Truth(i, snap'[i]))],
+                    after |-> AfterRec, emit |-> emitted']
 DeliverRec == [a |-> "Deliver", i |-> last'.i, k |-> last'.k, out |-> last'.out,
                book |-> ProjB(book'[last'.i]), sq |-> ProjS(sq'[last'.i]), conn |-> conn', notices |-> notices']
 
 World == [i \in INSTR |-> [chg |-> chg[i], cut |-> cut[i], events |-> [k \in 1..NEv(i) |-> Event(i, k)]]]
 
 \* ---------------------------------------------------------------- exhaustive
-GInitT == /\ Init
+GInitT == /\ \E r \in RULES, ch \in [INSTR -> EVOLUTIONS], ct \in [INSTR -> Cuts(M, MaxEvents)], S \in [INSTR -> 0..M],
+                x \in EXPECTED, buf \in Bufs :
+               /\ InitWithBuf(r, ch, ct, S, x, buf)
+               /\ hist = <<[a |-> "Init", snap |-> S, buf |-> buf, books |-> [i \in INSTR |-> ProjB(TruthOf(ch[i], S[i]))],
+                            after |-> [book |-> [i \in INSTR |-> ProjB(book[i])], sq |-> [i \in INSTR |-> ProjS(sq[i])],
+                                       conn |-> conn, notices |-> notices],
+                            emit |-> emitted]>>
           /\ phase = "run" /\ done = FALSE /\ pick = 0
-          /\ hist = <<[a |-> "Init", snap |-> snap, books |-> [i \in INSTR |-> ProjB(book[i])]]>>
 
 GStepT == /\ ~done /\ conn = "up" /\ Len(hist) <= MaxLen
           /\ (Dropped \/ Admitted \/ Error)
@@ -41,7 +53,7 @@ GStepT == /\ ~done /\ conn = "up" /\ Len(hist) <= MaxLen
 
 GFinishT == /\ ~done /\ (conn = "down" \/ Len(hist) = MaxLen + 1)
             /\ done' = TRUE
-            /\ UNCHANGED <<rule, chg, cut, snap, sq, book, conn, notices, nreinit, ndeliv, admitted, clean, last, phase, hist, pick>>
+            /\ UNCHANGED <<rule, chg, cut, snap, sq, book, expected, emitted, conn, notices, nreinit, ndeliv, admitted, clean, last, phase, hist, pick>>
 
 GSpecT == GInitT /\ [][GStepT \/ GFinishT]_gvars
 
@@ -52,28 +64,32 @@ Trivial == <<[side |-> "b", p |-> CHOOSE p \in PRICE : TRUE, a |-> 0]>>
 \* Random draws (HOWTO "TLC pitfalls"): every draw is bound through a singleton set and stored in a
 \* state variable one step before it is used (a state value is fully evaluated, a LET is not).
 DrawPick == \E i \in {RandomElement(INSTR)}, r \in {RandomElement(1..3)}, k \in {RandomElement(1..MaxEvents)},
-               S \in {[j \in INSTR |-> RandomElement(0..MCM)]} :
-              pick' = [i |-> i, r |-> r, k |-> k, S |-> S]
+               S \in {[j \in INSTR |-> RandomElement(0..MCM)]}, nb \in {RandomElement(0..MaxBuf)} :
+              \E bf \in {[j \in 1..nb |-> [i |-> RandomElement(INSTR), k |-> RandomElement(1..MaxEvents)]]} :
+                pick' = [i |-> i, r |-> r, k |-> k, S |-> S, buf |-> bf]
+
+\* the drawn buffer, made valid for the current world (event indices folded into 1..NEv)
+PickBuf == IF expected = 1 THEN << >>
+           ELSE [j \in DOMAIN pick.buf |-> Frame(pick.buf[j].i, ((pick.buf[j].k - 1) % NEv(pick.buf[j].i)) + 1)]
 
 GInitR == /\ InitWith("Spot", [i \in INSTR |-> Trivial], [i \in INSTR |-> <<1>>], [i \in INSTR |-> 0])
           /\ phase = "setup" /\ hist = << >> /\ done = FALSE /\ pick = 0
 
-\* step 1: the world is drawn into the state variables chg, cut, snap, rule
+\* step 1: the world is drawn into the state variables; there is no connection yet
 GSetup == /\ phase = "setup" /\ phase' = "open"
-          /\ \E r \in {RandomElement(RULES)},
+          /\ \E r \in {RandomElement(RULES)}, x \in {RandomElement(EXPECTED)},
                 ch \in {[i \in INSTR |-> [j \in 1..MCM |-> RandomElement(CHANGE)]]},
-                cs \in {[i \in INSTR |-> RandomElement(SUBSET (1..(MCM - 1)))]},
-                S \in {[i \in INSTR |-> RandomElement(0..MCM)]} :
-               rule' = r /\ chg' = ch /\ cut' = [i \in INSTR |-> AscSeq(cs[i] \cup {MCM})] /\ snap' = S
-          /\ UNCHANGED <<sq, book, conn, notices, nreinit, ndeliv, admitted, clean, last, done, hist>>
+                cs \in {[i \in INSTR |-> RandomElement(SUBSET (1..(MCM - 1)))]} :
+               rule' = r /\ expected' = x /\ chg' = ch /\ cut' = [i \in INSTR |-> AscSeq(cs[i] \cup {MCM})]
+          /\ conn' = "down" /\ nreinit' = -1 /\ book' = NoBooks
+          /\ UNCHANGED <<snap, sq, emitted, notices, ndeliv, admitted, clean, last, done, hist>>
           /\ DrawPick
 
 \* step 2: the first connection, computed from the (now fixed) world
 GOpen == /\ phase = "open" /\ phase' = "run"
-         /\ sq' = [i \in INSTR |-> Fresh(snap[i])]
-         /\ book' = [i \in INSTR |-> Truth(i, snap[i])]
-         /\ UNCHANGED <<rule, chg, cut, snap, conn, notices, nreinit, ndeliv, admitted, clean, last, done>>
-         /\ hist' = <<InitRec("Init")>>
+         /\ ReinitWithBuf(pick.S, PickBuf)
+         /\ hist' = <<InitRec("Init", PickBuf)>>
+         /\ UNCHANGED done
          /\ DrawPick
 
 NextLinkIdx(i) ==
@@ -90,16 +106,16 @@ GDeliver == /\ phase = "run" /\ ~done /\ conn = "up" /\ Len(hist) <= MaxLen
             /\ UNCHANGED <<phase, done>>
 
 GReinit == /\ phase = "run" /\ ~done /\ conn = "down" /\ Len(hist) <= MaxLen
-           /\ ReinitWith(pick.S)
-           /\ hist' = Append(hist, InitRec("Reinit"))
+           /\ ReinitWithBuf(pick.S, PickBuf)
+           /\ hist' = Append(hist, InitRec("Reinit", PickBuf))
            /\ DrawPick
            /\ UNCHANGED <<phase, done>>
 
 GFinishR == /\ phase = "run" /\ ~done /\ Len(hist) = MaxLen + 1
             /\ done' = TRUE
-            /\ UNCHANGED <<rule, chg, cut, snap, sq, book, conn, notices, nreinit, ndeliv, admitted, clean, last, phase, hist, pick>>
+            /\ UNCHANGED <<rule, chg, cut, snap, sq, book, expected, emitted, conn, notices, nreinit, ndeliv, admitted, clean, last, phase, hist, pick>>
 
 GSpecR == GInitR /\ [][GSetup \/ GOpen \/ GDeliver \/ GReinit \/ GFinishR]_gvars
 
-Emit == done => PrintT(<<"SCN", ToJson([rule |-> rule, world |-> World, steps |-> hist])>>)
+Emit == done => PrintT(<<"SCN", ToJson([rule |-> rule, expected |-> expected, world |-> World, steps |-> hist])>>)
 =============================================================================
